@@ -198,7 +198,9 @@ func failurePoint(r *drun) int {
 		}
 		// A dropped connection that the HTTP transport repairs by sending
 		// the same request again is not a failure the tool can see.
-		if t.Dev == sim.DevClose && i+1 < len(r.trans) && r.trans[i+1].Text == t.Text && r.trans[i+1].Dev == "" {
+		// (the repeated request may itself meet the second deviation of a
+		// pair: then that one is the failure)
+		if t.Dev == sim.DevClose && i+1 < len(r.trans) && r.trans[i+1].Text == t.Text {
 			continue
 		}
 		if t.Dev != "" || !t.Accepted {
